@@ -554,31 +554,37 @@ struct QExpression {
         }
     }
 
+    // The value used as a divisor by operator%: reals are truncated.
+    SizeT64I IntegerDivisor() const noexcept {
+        return ((Type == ExpressionType::RealNumber) ? SizeT64I(Value.Number.Real) : Value.Number.Integer);
+    }
+
+    // True when (x % *this) has no value.
+    bool IsZeroAsInteger() const noexcept {
+        return (IntegerDivisor() == 0);
+    }
+
     SizeT64I operator%(const QExpression &right) const noexcept {
-        SizeT64I result = 0;
+        const SizeT64I divisor = right.IntegerDivisor();
+        SizeT64I       result  = 0;
 
-        switch (Type) {
-            case ExpressionType::NaturalNumber:
-            case ExpressionType::IntegerNumber: {
-                if (right.Type == ExpressionType::RealNumber) {
-                    result = (Value.Number.Integer % SizeT64I(right.Value.Number.Real));
-                } else {
-                    result = (Value.Number.Integer % right.Value.Number.Integer);
+        // x % 0 has no value (callers test IsZeroAsInteger() first);
+        // x % -1 is always 0, and the division would trap for the minimum integer.
+        if ((divisor != 0) && (divisor != -1)) {
+            switch (Type) {
+                case ExpressionType::NaturalNumber:
+                case ExpressionType::IntegerNumber: {
+                    result = (Value.Number.Integer % divisor);
+                    break;
                 }
 
-                break;
-            }
-
-            case ExpressionType::RealNumber: {
-                result = SizeT64I(Value.Number.Real);
-                if (right.Type == ExpressionType::RealNumber) {
-                    result %= SizeT64I(right.Value.Number.Real);
-                } else {
-                    result %= right.Value.Number.Integer;
+                case ExpressionType::RealNumber: {
+                    result = (SizeT64I(Value.Number.Real) % divisor);
+                    break;
                 }
-            }
 
-            default: {
+                default: {
+                }
             }
         }
 
